@@ -2,41 +2,22 @@
 
 Workload: build/compose events over a shared heap (plus threads / faults on them) and ONE final
 observation pass.  Oracle: every live object's observation equals the observation of its linear
-rebuild (R); ablation replay (observe only the offending object, once) separates a C01 breach
-from render interference (owned by C02).
+rebuild (R; applied to results it is K).  Ablation replay (observe only the offending object,
+once) separates a C01 breach from render interference (owned by C02).
 """
 from __future__ import annotations
 
+import collections
 import random
-import time
 
-from . import engine, gen, lang, lib, obs, runner, shrink
-from .engine import MutableAlias, is_object_slot
+from . import engine, gen, lang, lib, obs, runner, sched, shrink
+from .engine import is_object_slot
 
 PROP = "C01"
+CONFIGS = [("seq", 0.55), ("seq-fault", 0.2), ("thr", 0.25)]
 
 
-def build_program(seed, run, overrides=None):
-    """Generate-as-you-go against a live heap; returns (program, knobs, env, gen)."""
-    rng = random.Random(gen.derive_seed(seed, run, 0xC01))
-    knobs = gen.default_knobs(rng, PROP)
-    if overrides:
-        knobs.update(overrides)
-    env = lang.Env(share_tables=knobs["share_tables"])
-    g = gen.Gen(rng, knobs, env)
-    discard = None
-    for _ in range(knobs["nops"]):
-        i = g.next_op()
-        op = g.program[i]
-        before = alias_snapshot(env, op)
-        v = engine.exec_op(env, op)
-        env.heap.append(v)
-        if not knobs["autoalias"] and alias_changed(env, before):
-            discard = "autoalias on a shared object"
-            break
-    return g.program, knobs, env, g, discard
-
-
+# ------------------------------------------------------------------ program construction
 def alias_snapshot(env, op):
     """Aliases of heap objects passed by reference to this op (to detect the one permitted side effect)."""
     snap = []
@@ -51,37 +32,31 @@ def alias_snapshot(env, op):
 
 def alias_changed(env, snap):
     for d, a in snap:
-        if env.heap[d].__dict__.get("alias") is not a and env.heap[d].__dict__.get("alias") != a:
+        cur = env.heap[d].__dict__.get("alias")
+        if cur is not a and not (isinstance(cur, str) and isinstance(a, str) and cur == a):
             return True
     return False
 
 
-def check_slots(program, env, share_tables, light=False):
-    """Final observation pass: compare every object slot with its linear rebuild."""
-    bad = []
-    n_obs = 0
-    for i in range(len(program)):
-        v = env.heap[i]
-        if not is_object_slot(v) and not isinstance(v, lang.Failed):
-            continue
-        if isinstance(v, lang.Failed) and v.injected:
-            continue
-        a = engine.slot_obs(env, i, light=light)
-        r = engine.reference_obs(program, i, share_tables, light=light)
-        n_obs += 1
-        d = obs.diff(a, r)
-        if d:
-            bad.append((i, d, a, r))
-    return bad, n_obs
-
-
-def ablate(program, victim, share_tables, keep=None):
-    """Replay `keep` (default: everything) in a fresh heap and observe ONLY the victim, once."""
-    only = None if keep is None else set(keep)
-    env = engine.execute(program, share_tables=share_tables, only=only)
-    a = engine.slot_obs(env, victim)
-    r = engine.reference_obs(program, victim, share_tables)
-    return obs.diff(a, r), a, r
+def build_program(seed, run, tag=0xC01, overrides=None, prop=PROP):
+    """Generate-as-you-go against a live heap (this is also the fault-free sequential dry run)."""
+    rng = random.Random(gen.derive_seed(seed, run, tag))
+    knobs = gen.default_knobs(rng, prop)
+    if overrides:
+        knobs.update(overrides)
+    env = lang.Env(share_tables=knobs["share_tables"])
+    g = gen.Gen(rng, knobs, env)
+    discard = None
+    for _ in range(knobs["nops"]):
+        i = g.next_op()
+        op = g.program[i]
+        before = alias_snapshot(env, op)
+        v = engine.exec_op(env, op)
+        env.heap.append(v)
+        if not knobs["autoalias"] and alias_changed(env, before):
+            discard = "autoalias on a shared object"
+            break
+    return g.program, knobs, env, g, discard, rng
 
 
 def owner_of(cls, m):
@@ -96,19 +71,59 @@ def receiver_label(program, env, j):
     op = program[j]
     if op["op"] in ("call", "join"):
         r = engine._deref(env, op["r"])
+        if not is_object_slot(r):
+            return lang.op_label(op)
         m = op.get("m") if op["op"] == "call" else "join"
         m = {"__add__": "union", "__mul__": "union_all", "__sub__": "minus", "__getitem__": "slice"}.get(m, m)
         return owner_of(type(r), m) + "." + m
     return lang.op_label(op)
 
 
-def diagnose(program, victim, share_tables):
-    """Minimal interfering set and signature for a confirmed violation on `victim`."""
+def is_branching(program) -> bool:
+    use = collections.Counter()
+    for op in program:
+        for d in lang.op_deps(op):
+            use[d] += 1
+    return any(c >= 2 for c in use.values())
+
+
+# ------------------------------------------------------------------ oracle
+def check_slots(program, env, share_tables, okw):
+    """Final observation pass: compare every object slot with its linear rebuild."""
+    bad = []
+    n_obs = 0
+    for i in range(len(program)):
+        v = env.heap[i]
+        if isinstance(v, (lang.Skipped, lang.Value, engine.MutableAlias)):
+            continue
+        if isinstance(v, lang.Failed) and v.injected:
+            continue
+        a = engine.slot_obs(env, i, **okw)
+        r = engine.reference_obs(program, i, share_tables, **okw)
+        n_obs += 1
+        d = obs.diff(a, r)
+        if d:
+            bad.append((i, d))
+    return bad, n_obs
+
+
+def ablate(program, victim, share_tables, keep=None, okw=None):
+    """Replay `keep` (default: everything) sequentially in a fresh heap, observe ONLY the victim, once."""
+    okw = okw or {}
+    only = None if keep is None else set(keep)
+    env = engine.execute(program, share_tables=share_tables, only=only)
+    a = engine.slot_obs(env, victim, **okw)
+    r = engine.reference_obs(program, victim, share_tables, **okw)
+    return obs.diff(a, r), a, r
+
+
+def diagnose(program, victim, share_tables, okw=None):
+    """Minimal interfering set and signature for a violation that reproduces sequentially."""
     base = set(lang.cone(program, victim))
     extra = set(range(len(program))) - base
 
     def fails(keep):
-        d, _, _ = ablate(program, victim, share_tables, keep=keep)
+        d, _, _ = ablate(program, victim, share_tables, keep=keep, okw=okw)
         return bool(d)
 
     if fails(base):
@@ -136,52 +151,290 @@ def relation(program, victim, m_roots):
     return rel
 
 
-def one_run(seed, run, overrides=None):
-    program, knobs, env, g, discard = build_program(seed, run, overrides)
-    res = {"run": run, "nops": len(program), "discard": discard, "violations": [], "interference": 0,
-           "harness": [], "uncovered": sorted(g.uncovered)}
+# ------------------------------------------------------------------ simulated (threads / faults)
+SIM_OPS = ("call", "join", "render", "dup")
+
+
+def plan_sim(program, knobs, rng, config, op_len):
+    """Draw the schedule/fault plan of one simulated execution (all from the run's PRNG)."""
+    n = len(program)
+    plan = {"gran": "LINE" if rng.random() < 0.8 else "INSTRUCTION", "faults": [], "stall": None}
+    if config == "thr":
+        nact = rng.randint(2, 4)
+        plan["assign"] = {i: rng.randrange(nact) for i in range(n)}
+        plan["mean_q"] = int(round(2 ** rng.uniform(0, 6)))
+        if rng.random() < 0.25:
+            cands = [i for i in range(n) if op_len.get(i, 0) > 4 and program[i]["op"] in SIM_OPS]
+            if cands:
+                i = cands[rng.randrange(len(cands))]
+                plan["stall"] = {"actor": plan["assign"][i], "op": i, "step": rng.randint(1, op_len[i] - 1)}
+    else:
+        plan["assign"] = {i: 0 for i in range(n)}
+        plan["mean_q"] = 1 << 20
+        plan["gran"] = "LINE"
+        cands = [i for i in range(n) if op_len.get(i, 0) > 2 and program[i]["op"] in SIM_OPS]
+        if not cands:
+            cands = [i for i in range(n) if op_len.get(i, 0) > 2]
+        rng.shuffle(cands)
+        for i in cands[: rng.randint(1, 3)]:
+            plan["faults"].append({"op": i, "step": rng.randint(1, op_len[i]), "kind": "async_exc"})
+    return plan
+
+
+def run_sim(program, share_tables, plan, trace=None, rng=None):
+    dec = sched.ReplayDecider(trace) if trace is not None else sched.RandomDecider(rng, plan["mean_q"])
+    assign = {int(k): v for k, v in plan["assign"].items()}
+    sim = sched.Sim(program, assign, dec, share_tables=share_tables, gran=plan["gran"],
+                    faults=[dict(f) for f in plan["faults"]], stall=dict(plan["stall"]) if plan["stall"] else None)
+    env = sim.run()
+    return env, sim, dec.trace
+
+
+# ------------------------------------------------------------------ one run
+def pick_config(rng, force=None, configs=CONFIGS):
+    if force:
+        return force
+    r = rng.random()
+    acc = 0.0
+    for name, w in configs:
+        acc += w
+        if r < acc:
+            return name
+    return configs[0][0]
+
+
+def one_run(seed, run, force_config=None, overrides=None, max_diag=3):
+    L = lib.get()
+    program, knobs, env, g, discard, rng = build_program(seed, run, overrides=overrides)
+    config = pick_config(rng, force_config)
+    okw = {"ctx_names": sorted(rng.sample(L.CTX_NAMES, 3))}
+    st = knobs["share_tables"]
+    res = {"run": run, "config": config, "nops": len(program), "discard": discard, "violations": [],
+           "interference": 0, "harness": [], "uncovered": sorted(g.uncovered), "steps": 0, "switches": 0,
+           "fired": {}, "overlap": 0, "n_obs": 0, "shape": None, "branching": False, "methods": {},
+           "skipped_after_fault": 0, "schedule_hash": None}
     if discard:
         return res, program
-    bad, n_obs = check_slots(program, env, knobs["share_tables"])
+    res["shape"] = runner.shape_of(program)
+    res["branching"] = is_branching(program)
+    meth = collections.Counter()
+    for j, op in enumerate(program):
+        if op["op"] in ("call", "join"):
+            meth[receiver_label(program, env, j)] += 1
+    res["methods"] = dict(meth)
+
+    plan = trace = None
+    if config != "seq":
+        op_len, msim = sched.measure(program, st)
+        plan = plan_sim(program, knobs, rng, config, op_len)
+        env, sim, trace = run_sim(program, st, plan, rng=rng)
+        res["steps"] = sim.clock
+        res["switches"] = sim.switches
+        res["fired"] = dict(sim.fired)
+        res["overlap"] = sim.overlap
+        res["schedule_hash"] = "%016x" % sim.hash
+        res["preempt_in_lib"] = getattr(sim, "preempt_in_lib", 0)
+        res["skipped_after_fault"] = sum(1 for v in env.heap if isinstance(v, lang.Skipped))
+
+    bad, n_obs = check_slots(program, env, st, okw)
     res["n_obs"] = n_obs
     seen_sig = set()
-    for victim, d, a, r in bad[:6]:
-        d2, a2, r2 = ablate(program, victim, knobs["share_tables"])
+    for victim, d in bad[:max_diag]:
+        # 1. ablation: same history, observe only the victim, once
+        if config == "seq":
+            d2, a2, r2 = ablate(program, victim, st, okw=okw)
+        else:
+            env2, _, _ = run_sim(program, st, plan, trace=trace)
+            a2 = engine.slot_obs(env2, victim, **okw)
+            r2 = engine.reference_obs(program, victim, st, **okw)
+            d2 = obs.diff(a2, r2)
         if not d2:
             res["interference"] += 1
             continue
-        sig, base, m = diagnose(program, victim, knobs["share_tables"])
-        if sig is None:
-            res["harness"].append({"victim": victim, "why": "rebuild of the same cone differs", "labels": d2[:5]})
-            continue
-        if sig in seen_sig:
-            continue
-        seen_sig.add(sig)
-        keep = sorted(base | m)
-        prog2, mp = shrink.slice_program(program, keep)
-        v2 = mp[victim]
-        d3, a3, r3 = ablate(prog2, v2, knobs["share_tables"])
-        res["violations"].append({
-            "signature": sig,
-            "payload": {
-                "property": PROP, "config": "seq", "seed": seed, "run": run,
-                "share_tables": knobs["share_tables"], "program": prog2, "victim": v2,
-                "interfering_ops": [mp[j] for j in sorted(m)],
+        # 2. does it already fail without threads/faults?  then it is a plain history violation
+        dseq, aseq, rseq = ablate(program, victim, st, okw=okw)
+        if dseq:
+            sig, base, m = diagnose(program, victim, st, okw=okw)
+            if sig is None:
+                res["harness"].append({"victim": victim, "why": "rebuild of the same cone differs", "labels": dseq[:5]})
+                continue
+            if sig in seen_sig:
+                continue
+            seen_sig.add(sig)
+            keep = sorted(base | m)
+            prog2, mp = shrink.slice_program(program, keep)
+            v2 = mp[victim]
+            d3, a3, r3 = ablate(prog2, v2, st, okw=okw)
+            payload = {
+                "property": PROP, "config": "seq", "found_in": config, "seed": seed, "run": run, "share_tables": st,
+                "program": prog2, "victim": v2, "okw": okw, "interfering_ops": [mp[j] for j in sorted(m)],
                 "relation": relation(prog2, v2, [mp[j] for j in shrink.roots(program, m)]),
                 "signature": sig, "differs_on": d3[:12],
-                "observed": {k: a3.get(k) for k in d3[:4]}, "expected": {k: r3.get(k) for k in d3[:4]},
+                "observed": {k: a3.get(k) for k in d3[:3]}, "expected": {k: r3.get(k) for k in d3[:3]},
                 "original_nops": len(program),
-            },
-        })
+            }
+        else:
+            vlabel = receiver_label(program, env, victim)
+            kind = "thread" if config == "thr" else "fault"
+            culprit = ""
+            if config == "seq-fault":
+                culprit = "+".join(sorted({receiver_label(program, env, f["op"]) for f in plan["faults"]}))
+            sig = f"{PROP}:{kind}:{culprit or vlabel}"
+            if sig in seen_sig:
+                continue
+            seen_sig.add(sig)
+            payload = {
+                "property": PROP, "config": config, "seed": seed, "run": run, "share_tables": st,
+                "program": program, "victim": victim, "okw": okw, "plan": plan, "trace": trace,
+                "signature": sig, "differs_on": d2[:12],
+                "observed": {k: a2.get(k) for k in d2[:3]}, "expected": {k: r2.get(k) for k in d2[:3]},
+            }
+        res["violations"].append({"signature": sig, "payload": payload})
     return res, program
 
 
-def replay(payload) -> tuple[bool, str]:
+def replay(payload):
+    """Re-execute a replay file (no PRNG draw). Returns (reproduced, signature)."""
     prog = payload["program"]
     v = payload["victim"]
     st = payload.get("share_tables", True)
-    d, a, r = ablate(prog, v, st)
-    if not d:
+    okw = payload.get("okw") or {}
+    if payload.get("config", "seq") == "seq":
+        d, a, r = ablate(prog, v, st, okw=okw)
+        if not d:
+            return False, "not reproduced"
+        sig, _, _ = diagnose(prog, v, st, okw=okw)
+        return True, sig or "harness"
+    env2, _, _ = run_sim(prog, st, payload["plan"], trace=payload["trace"])
+    a2 = engine.slot_obs(env2, v, **okw)
+    r2 = engine.reference_obs(prog, v, st, **okw)
+    if not obs.diff(a2, r2):
         return False, "not reproduced"
-    sig, _, _ = diagnose(prog, v, st)
-    return True, sig or "harness"
+    return True, payload["signature"]
+
+
+# ------------------------------------------------------------------ batch (one worker task)
+def batch(task):
+    lib.get()
+    seed, lo, hi = task["seed"], task["lo"], task["hi"]
+    agg = new_agg()
+    for run in range(lo, hi):
+        res, program = one_run(seed, run, force_config=task.get("config"), overrides=task.get("overrides"))
+        fold(agg, res, program)
+        if len(agg["violations"]) >= task.get("max_viol", 12):
+            break
+    return agg
+
+
+def new_agg():
+    return {"runs": 0, "discards": 0, "ops": 0, "n_obs": 0, "interference": 0, "harness": [], "violations": [],
+            "uncovered": set(), "steps": 0, "switches": 0, "fired": collections.Counter(), "overlap": 0,
+            "shapes": set(), "branching_shapes": set(), "methods": collections.Counter(),
+            "configs": collections.Counter(), "samples": [], "schedules": set(), "preempt_in_lib": 0,
+            "skipped_after_fault": 0, "fault_runs": 0}
+
+
+def fold(agg, res, program):
+    agg["runs"] += 1
+    agg["configs"][res["config"]] += 1
+    if res["discard"]:
+        agg["discards"] += 1
+        return
+    agg["ops"] += res["nops"]
+    agg["n_obs"] += res["n_obs"]
+    agg["interference"] += res["interference"]
+    agg["harness"].extend(res["harness"][:2])
+    agg["uncovered"].update(res["uncovered"])
+    agg["steps"] += res["steps"]
+    agg["switches"] += res["switches"]
+    agg["fired"].update(res["fired"])
+    if res["fired"]:
+        agg["fault_runs"] += 1
+    agg["overlap"] += res["overlap"]
+    agg["preempt_in_lib"] += res.get("preempt_in_lib", 0)
+    agg["skipped_after_fault"] += res["skipped_after_fault"]
+    agg["shapes"].add(res["shape"])
+    if res["branching"]:
+        agg["branching_shapes"].add(res["shape"])
+    agg["methods"].update(res["methods"])
+    if res["schedule_hash"]:
+        agg["schedules"].add(res["schedule_hash"])
+    if len(agg["samples"]) < 2 and res["branching"] and res["nops"] <= 8:
+        agg["samples"].append({"run": res["run"], "config": res["config"], "program": program})
+    for v in res["violations"]:
+        agg["violations"].append((v["signature"], v["payload"], res["run"]))
+
+
+def merge(aggs):
+    out = new_agg()
+    for a in aggs:
+        for k, v in a.items():
+            if isinstance(v, set):
+                out[k] |= v
+            elif isinstance(v, collections.Counter):
+                out[k].update(v)
+            elif isinstance(v, list):
+                out[k].extend(v)
+            else:
+                out[k] += v
+    return out
+
+
+# ------------------------------------------------------------------ tiers / evidence
+TIERS = {
+    "quick": {"runs": 2400, "chunk": 25, "wall_cap": 600},
+    "thorough": {"runs": 40000, "chunk": 100, "wall_cap": 3400},
+}
+
+ASSUMPTIONS = [
+    "reference = linear rebuild of the object's own construction cone with the same library code "
+    "(a builder broken identically on every path is a change of meaning, not of immutability)",
+    "pre-emption/injection at LINE or INSTRUCTION boundaries of library frames; C-level calls are atomic (GIL)",
+    "un-aliased subqueries/self-joined tables in aliasing positions are private inline objects "
+    "(the one permitted side effect is not exercised on shared objects in this check)",
+    "seeded sampling, not exhaustive",
+]
+
+
+def evidence(agg, tier, seed, wall):
+    L = lib.get()
+    census = L.census()
+    all_methods = sorted({c.rsplit(".", 1)[-1] + "." + m for c, ms in census.items() for m in ms})
+    covered = sorted(m for m in all_methods if agg["methods"].get(m, 0) > 0)
+    missing = sorted(set(all_methods) - set(covered))
+    rate = agg["runs"] / wall * 3600 if wall > 0 else 0
+    cov = {
+        "evaluations": agg["runs"],
+        "distinct_nontrivial": len(agg["branching_shapes"]),
+        "rule": "one evaluation = one simulated run (seeded program of 3-24 build/compose ops over a shared heap, "
+                "executed sequentially, with injected asynchronous exceptions, or by 2-4 scheduled actor threads; "
+                "then every live object is compared with its linear rebuild). distinct = distinct op-log shapes "
+                "(literals abstracted); non-trivial = the shape contains a branching (some object is receiver or "
+                "by-reference argument of >= 2 later ops)",
+        "samples": agg["samples"][:3] or [{"note": "no short branching sample in this batch"}],
+        "distinct_shapes": len(agg["shapes"]),
+        "configs": dict(agg["configs"]),
+        "ops_executed": agg["ops"],
+        "objects_compared_with_rebuild": agg["n_obs"],
+        "runs_per_hour": int(rate),
+        "simulated_time_logical_steps": agg["steps"],
+        "context_switches": agg["switches"],
+        "preemptions_inside_library_frames": agg["preempt_in_lib"],
+        "ops_begun_while_another_actor_mid_op": agg["overlap"],
+        "distinct_interleavings_by_schedule_hash": len(agg["schedules"]),
+        "faults_fired": dict(agg["fired"]),
+        "runs_with_a_fired_fault": agg["fault_runs"],
+        "ops_skipped_after_a_fault": agg["skipped_after_fault"],
+        "discarded_runs_autoalias_on_shared_object": agg["discards"],
+        "render_interference_not_C01": agg["interference"],
+        "builder_methods_in_census": len(all_methods),
+        "builder_methods_exercised": len(covered),
+        "builder_methods_not_exercised": missing,
+        "methods_without_recipe": sorted(agg["uncovered"]),
+        "per_method_calls": dict(sorted(agg["methods"].items())),
+        "components": {"real": ["pypika_tortoise (whole package, imported from the repo working tree)"],
+                       "stubbed": [], "harness_doubles": ["actor threads", "FaultyLeaf(Term)"]},
+        "fault_kinds_not_applicable": ["message loss/dup/reorder", "partition", "disk error/torn write",
+                                       "clock skew (the library has no transport, storage or clock)"],
+    }
+    return cov, ASSUMPTIONS, None
